@@ -1,15 +1,32 @@
 """C12 - the reversible estimator is a true maximum-likelihood fixed point."""
-from pyvc.runner import Run, resolve_failures
+from pyvc.runner import Run, Unit, resolve_failures
+from contracts import prinz as PZ
+
+BPY, PYX = 'enspara/msm/builders.py', 'enspara/msm/libmsm.pyx'
+MUT_PY = [('other-root', BPY, "                    v = (-b + np.sqrt((b**2) - (4*a*c))) / (2*a)", "                    v = (-b - np.sqrt((b**2) - (4*a*c))) / (2*a)"),
+          ('conjugate-form-divides-by-zero', BPY, "                    v = (-b + np.sqrt((b**2) - (4*a*c))) / (2*a)", "                    v = (2*c) / (-b - np.sqrt((b**2) - (4*a*c)))"),
+          ('asymmetric-write', BPY, "                X[i, j] = v\n                X[j, i] = v\n", "                X[i, j] = v\n"),
+          ('wrong-discriminant', BPY, "np.sqrt((b**2) - (4*a*c))", "np.sqrt((b**2) - (2*a*c))")]
+MUT_PYX = [('other-root', PYX, "                    v = (-b + sqrt((b*b) - (4*a*c))) / (2*a)", "                    v = (-b - sqrt((b*b) - (4*a*c))) / (2*a)"),
+           ('coefficient-b-sign', PYX, "                    C_rs[j] * (X_rs[i] - X[i, j]) -\\\n", "                    C_rs[j] * (X_rs[i] - X[i, j]) +\\\n")]
 
 
 def run(tier, seed, update_lock=False):
     R = Run('C12', 'other', tier, seed)
+    units = [Unit('prinz[python]', PZ.registry('py'), mutants=MUT_PY), Unit('prinz[compiled]', PZ.registry('pyx'), mutants=MUT_PYX)]
+    for u in units:
+        R.prove(u)
+    for u in units:
+        R.canary_check(u)
     R.bounded('C12.py', 'run-time contracts on the real _prinz_mle_py, the compiled libmsm kernel and builders.mle',
-              'strongly connected count matrices with 2..4 states: all 2x2 over {0,1,3}, strided 3x3 over {0,1,4}, seeded integer / real matrices; both implementations', timeout=3000)
+              'strongly connected count matrices with 2..4 states: all 2x2 over {0,1,3}, strided 3x3 over {0,1,4}, seeded integer / real matrices, scaled counts; both implementations', timeout=3000)
     R.report_known('C12.py')
     resolve_failures(R, 'C12.py', lambda f: None)
-    R.clauses = [{'clause': 'terminates with a model or a convergence warning, never an internal assertion failure', 'status': 'bounded'},
-                 {'clause': 'Prinz self-consistency equations; likelihood >= transpose estimate and >= random reversible competitors', 'status': 'bounded (tolerance 1e-6 relative)'},
-                 {'clause': 'compiled and pure-Python implementations agree', 'status': 'bounded'},
+    R.clauses = [{'clause': 'every sweep of both implementations (same contract text on builders._prinz_mle_py and on the desugared libmsm._mle_prinz_dense): the iterate stays symmetric; each pair update writes X[i,j] = X[j,i] = v with coefficients a, b, c equal to Prinz\'s quadratic (restated from the paper), v a root of a v^2 + b v + c = 0, v >= 0, discriminant >= 0; the returned T is the row-normalised iterate and is in detailed balance with its row totals', 'status': 'proved in real arithmetic (SMT, non-linear; local proofs from named definitions)'},
+                 {'clause': 'terminates with a model or a convergence warning, never an internal assertion failure', 'status': 'bounded (the assertions depend on floating-point running sums: left open in the contract as may_raise, never counted as proved)'},
+                 {'clause': 'Prinz self-consistency equations at the returned point; likelihood >= transpose estimate and >= random reversible competitors', 'status': 'bounded (tolerance 1e-6 relative)'},
+                 {'clause': 'compiled and pure-Python implementations agree', 'status': 'update step: proved equal by the shared contract; whole runs: bounded (the convergence tests use ln and log10 respectively)'},
                  {'clause': 'global optimality / convergence of the floating-point fixed-point iteration', 'status': 'not decidable by this technique (DESIGN 9)'}]
-    return R.finish('Bounded stand-in only in this run (deductive obligations for the update step are planned, DESIGN 4 C12).', update_lock=update_lock)
+    R.assumptions += ['machine floating point treated as real arithmetic in the Prinz step proof; sqrt axiomatised by sqrt(x)^2 = x, sqrt(x) >= 0 for x >= 0; row total >= entry for non-negative rows (Finset.single_le_sum) assumed as a ghost axiom',
+                      'absence of AssertionError / ZeroDivisionError inside the iteration is NOT proved (may_raise)']
+    return R.finish('Deductive: the Prinz update step of both implementations. Bounded stand-in for termination, the fixed point and likelihood comparisons.', update_lock=update_lock)
